@@ -701,7 +701,12 @@ def call_method(ip, base, name, args, kwargs, node=None):
     if name == "get":
       k = args[0]; d = args[1] if len(args) > 1 else kwargs.get("default")
       h = base.has(k)
-      return None, ip.ite(h, base.at(k), d)
+      try:
+        return None, ip.ite(h, base.at(k), d)
+      except Unsupported:
+        if ip.spec: raise
+        # the default cannot be merged with a stored value (a sentinel object): follow the path
+        return None, (base.at(k) if ip.ctx.decide(h) else d)
     if name == "pop":
       k = args[0]
       if len(args) > 1:
@@ -768,6 +773,19 @@ def call_method(ip, base, name, args, kwargs, node=None):
   symbolic_inside = is_symbolic(base) or any(is_symbolic(a) for a in args) or \
       any(isinstance(a, (SymComp, SymIter)) for a in args)
   if symbolic_inside:
+    if isinstance(base, set) and name in ("add", "discard", "remove", "update") and \
+        not any(is_symbolic(x) for x in base) and args:
+      # a concrete set meets a symbolic element: continue with the characteristic-array model
+      sh = V.shape_of(args[0]) if name != "update" else (V.SetOf(args[0].key).key
+                                                         if isinstance(args[0], SSet) else None)
+      if isinstance(args[0], V.SOpt): sh = args[0].shape
+      if sh is not None and len(sh.sorts()) == 1:
+        try:
+          lifted = V.SetOf(sh).build(V.SetOf(sh).leaves(base))
+        except Unsupported:
+          lifted = None
+        if lifted is not None:
+          return call_method(ip, lifted, name, args, kwargs, node)
     if isinstance(base, list) and name in ("append", "insert", "pop", "copy", "reverse", "clear"):
       if name in ("pop", "insert") and any(is_symbolic(a) for a in args[:1]):
         ip.unsupported("list.%s with symbolic index" % name, node)
